@@ -174,9 +174,68 @@ def check(ctx):
                and body[3][0] == "phi" and body[3][1] == ("cmp", "in", ("sub", el, ("const", 1)), ("param", "rhs_called_contests"))
                and body[3][2][0] == "setitem" and body[3][2][2] == ("sub", el, ("const", 0)) and body[3][2][3] == ("param", "rhs_value")
                and body[3][3][0] == "loopin")
+    why_not = f"vector construction changed: {ir.show(rt, maxdepth=6)[:200]}"
+    if not okv:
+        # other idiom: start from full(len(contests), fill) and assign by boolean masks. Evaluated per contest for the three possible
+        # memberships (left list only / right list only / neither; both is rejected by the validation above).
+        P = lambda n_: ("param", n_)  # noqa: E731
+        unsafe = []
+
+        def from_contests(x):
+            while x[0] == "call" and ir.show(x[1]).split(".")[-1] in ("asarray", "array", "list", "Series", "Index") and x[2]:
+                x = x[2][0]
+            return x == P("contests")
+
+        def evmask(m, inL, inR):
+            if m[0] == "call" and ir.show(m[1]).endswith("isin") and (len(m[2]) == 2 or (m[1][0] == "attr" and len(m[2]) == 1)):
+                pandas_method = m[1][0] == "attr" and not ir.show(m[1]).startswith("numpy")
+                x, y = (m[1][1], m[2][0]) if pandas_method else (m[2][0], m[2][1])
+                if not from_contests(x):
+                    return None
+                raw = y
+                wrapped = False
+                while raw[0] == "call" and ir.show(raw[1]).split(".")[-1] in ("list", "sorted", "tuple", "asarray", "array") and raw[2]:
+                    wrapped = wrapped or ir.show(raw[1]).split(".")[-1] in ("list", "sorted", "tuple")
+                    raw = raw[2][0]
+                if raw not in (P("lhs_called_contests"), P("rhs_called_contests")):
+                    return None
+                if not (wrapped or pandas_method):
+                    unsafe.append(ir.show(m, maxdepth=3))  # numpy.isin treats a set / dict as ONE object: the mask is all False
+                return inL if raw == P("lhs_called_contests") else inR
+            return None
+
+        def ev_(t, inL, inR):
+            if t[0] == "call" and ir.show(t[1]).endswith("full") and len(t[2]) >= 2:
+                return "F" if t[2][1] == P("fill_value") and "contests" in ir.show(t[2][0]) else None
+            if t[0] == "setitem":
+                m = evmask(t[2], inL, inR)
+                if m is None:
+                    return None
+                if m:
+                    return {P("lhs_value"): "L", P("rhs_value"): "R", P("fill_value"): "F"}.get(t[3])
+                return ev_(t[1], inL, inR)
+            if t[0] in ("phi", "ifexp"):
+                a_, b_ = ev_(t[2], inL, inR), ev_(t[3], inL, inR)
+                c_ = t[1]
+                # guards of the form len(<list>) > 0 are implied by membership and irrelevant without it
+                if c_[0] == "cmp" and c_[2][0] == "call" and c_[2][1] == ("global", "len") and c_[2][2] and c_[2][2][0] in (P("lhs_called_contests"), P("rhs_called_contests")):
+                    member = inL if c_[2][2][0] == P("lhs_called_contests") else inR
+                    if member and c_[1] in (">", "!=", ">=") :
+                        return a_
+                return a_ if a_ == b_ else None
+            if t[0] == "call" and t[1][0] == "attr" and t[1][2] in ("copy", "astype"):
+                return ev_(t[1][1], inL, inR)
+            return None
+
+        got = {k_: ev_(rt, *v_) for k_, v_ in (("left", (True, False)), ("right", (False, True)), ("neither", (False, False)))}
+        okv = got == {"left": "L", "right": "R", "neither": "F"} and not unsafe
+        if unsafe:
+            why_not = (f"the membership mask is {unsafe[0]}: numpy.isin treats a set, frozenset or dict (all accepted by the validation, which uses "
+                       f"set arithmetic) as ONE object, the mask is all False and the call / stop is silently ignored; wrap the list (list(..))")
+        elif not okv:
+            why_not = f"per contest the vector is {got} (expected left -> lhs_value, right -> rhs_value, neither -> fill): {ir.show(rt, maxdepth=5)[:160]}"
     ctx.ob("C07.R1.assign", f"{fc.qualname}|vector by membership", okv, fc.where(),
-           "vector[i] = lhs_value if contest i in lhs list, rhs_value if in rhs list, else fill (in contest order)" if okv
-           else f"vector construction changed: {ir.show(rt, maxdepth=6)[:200]}")
+           "vector[i] = lhs_value if contest i in lhs list, rhs_value if in rhs list, else fill (in contest order)" if okv else why_not)
 
     # the validation has to happen on EVERY request that carries call lists, not only when the contest-level table is among the
     # requested aggregates: a call site of _format_called_contests that is not under `_is_top_level_aggregate(..)` (or a validation in
